@@ -1,4 +1,6 @@
 """A2: gate edges and must-pass-through; classification of return values."""
+import re
+
 from .core import IDENT, OKFLOW, DEPEND, Origin, norm_path, callee_matches
 from .facts import span_str
 
@@ -190,6 +192,15 @@ def _classify_origin(prog, o, depth=0):
         c = o.callee
         if c is not None and c.path == "std::ops::FromResidual::from_residual":
             return ("failure", "from_residual", None)
+        # an Ok/Err-preserving combinator (with_context, map_err, ...) applied to a value that is an error on every path:
+        # `return Err(e).with_context(..)` is a failure return, not a delegated one
+        if c is not None and depth < 3 and o.term is not None and o.term.args and re.search(
+                r"(IoErrorExt::with_context|Result::<T, E>::(map_err|map|or_else|and_then|inspect_err)|std::convert::Into::into|std::convert::From::from)$", c.path):
+            sub = prog.resolve_op(o.body, o.term.args[0], OKFLOW, o.blk)
+            if sub and all(x is not o for x in sub):
+                cl = [_classify_origin(prog, x, depth + 1) for x in sub if not (x.kind == "call" and x.term is o.term)]
+                if cl and all(c_[0] == "failure" for c_ in cl):
+                    return ("failure", "Err through %s" % c.path.rsplit("::", 1)[-1], None)
         return ("delegated", repr(o), o)
     if o.kind == "const":
         return ("success", "const", None)
